@@ -117,6 +117,60 @@ def _r1(model, rep):
        "Mesh._decode_cell_data",
        f"kinds written {sorted(kinds_w)} differ from kinds read "
        f"{sorted(cmps.get(1, set()))}", dec.lineno)
+    # ---- names survive the key round trip: the reader is interpreted on
+    # the writer's keys for names that contain the separator themselves
+    class Any_:
+        """opaque array data: every operation yields opaque data"""
+        skv_isarray = True
+
+        def skv_getattr(self, nm):
+            if nm == "any":
+                return PyFunc(lambda a, k, n: False)
+            if nm in ("shape",):
+                raise Unsupported("opaque." + nm)
+            return PyFunc(lambda a, k, n: self)
+
+        def skv_getitem(self, ix):
+            return self
+
+        def skv_binop(self, op, other, reflected):
+            return self
+
+        def skv_compare(self, op, other, reflected=False):
+            return self
+    ANY = Any_()
+
+    def khook(interp, name, args, kwargs, node):
+        if name.startswith("numpy."):
+            return ANY
+        return NotImplemented
+    names_in = ["plain", "inlet:upper", "inlet:lower", "a:b:c", "x y"]
+    wpref = sorted(p for p in pref if len(p.split(sep)) == 3)
+    if len(wpref) == 2:
+        kinds = {p.split(sep)[1]: p for p in wpref}
+        cd = {}
+        for nm_ in names_in:
+            for p in wpref:
+                cd[p + nm_] = [ANY]
+        mo = Obj(mcls, {"refdom": Obj(None, {"nfacets": 3}), "t2f": ANY,
+                        "f2t": ANY})
+        try:
+            it_ = Interp(model, call_hook=khook)
+            res = it_.call(dec, [cd], {}, self_obj=mo)
+        except (Unsupported, Raised) as e:
+            raise AnalysisError(f"_decode_cell_data on the writer's keys: "
+                                f"{e}")
+        gotb, gots = (set(res[0]), set(res[1])) if isinstance(
+            res, tuple) and len(res) == 2 else (None, None)
+        okn = gotb == set(names_in) and gots == set(names_in)
+        _v(rep, R1, okn, "cell-data-names",
+           f"names {names_in} (some containing '{sep}') come back "
+           f"unchanged from the writer's keys", "Mesh._decode_cell_data",
+           f"the reader turns the writer's keys for the names {names_in} "
+           f"into boundaries {sorted(gotb) if gotb is not None else res!r} "
+           f"and subdomains {sorted(gots) if gots is not None else ''}: a "
+           f"name containing '{sep}' is cut at it, and tags whose names "
+           f"share the part before it are merged", dec.lineno)
     # ---- bit weights on both sides
     def weights(fn):
         cands = []
@@ -252,9 +306,14 @@ def _r1(model, rep):
                 return PyFunc(lambda a, k, n: DA(self.name, "list", self.tr))
             raise Unsupported(f"{self.form}.{name}")
 
+    untyped = []
+
     def dhook(interp, name, args, kwargs, node):
         if name in ("numpy.array", "numpy.asarray") and args and \
                 isinstance(args[0], DA):
+            if args[0].name.startswith(("B:", "S:")) and \
+                    kwargs.get("dtype") is None and len(args) < 2:
+                untyped.append((args[0].name, node))
             return DA(args[0].name, "array", args[0].tr)
         if name == "numpy.ascontiguousarray" and isinstance(args[0], DA) \
                 and args[0].form == "array":
@@ -304,6 +363,17 @@ def _r1(model, rep):
                    f"the constructor receives {have} (form 'list' = not "
                    f"converted back to an array), expected {want}")),
                fd.lineno)
+    # an index list may be empty (a tag that selects nothing): np.array([])
+    # is a float64 array, which cannot index - the tag arrays must be
+    # rebuilt with an integer dtype
+    _v(rep, R1, not untyped, "dict-roundtrip:index-dtype",
+       "tag lists are converted back with an explicit integer dtype",
+       "Mesh.from_dict",
+       f"'{src(untyped[0][1])[:40] if untyped else ''}' rebuilds the index "
+       f"array of a tag without a dtype: an empty tag comes back as "
+       f"array([], dtype=float64) and every later use of it as an index "
+       f"(facets[:, tag], FacetBasis, save) raises",
+       untyped[0][1].lineno if untyped else fd.lineno)
     # ---- type tables and hexahedron permutation
     m = model.module(IO)
     it = Interp(model)
@@ -855,6 +925,12 @@ def run(model: Model, rep, tier: str) -> None:
 _IO = FIO
 _G22 = "    if len(boundaries) == 0 and m.cell_data and m.field_data:"
 MUTANTS = [
+    ("cell-data keys split at every separator",
+     [(FM, "            subnames = name.split(\":\", 2)",
+       "            subnames = name.split(\":\")")], "C17-R1"),
+    ("from_dict rebuilds the subdomain arrays without a dtype",
+     [(FM, "            data['subdomains'] = {k: np.array(v, dtype=np.int32)",
+       "            data['subdomains'] = {k: np.array(v)")], "C17-R1"),
     ("from_dict converts the boundaries when the subdomains are present",
      [(FM, "        if 'boundaries' in data and data['boundaries'] is not "
        "None:", "        if 'boundaries' in data and data['subdomains'] is "
@@ -955,6 +1031,9 @@ MUTANTS = [
       "'subdomains': subdomains,"), "C17-R1"),
 ]
 TWINS = [
+    ("cell-data keys parsed with partition",
+     [(FM, "            subnames = name.split(\":\", 2)",
+       "            subnames = name.split(\":\", maxsplit=2)")]),
     ("legacy MSH 2.2 parser guarded by the length of the table",
      [(FIO, _G22, "    if len(boundaries) == 0 and m.cell_data and "
        "len(m.field_data) > 0:")]),
